@@ -40,6 +40,24 @@ CLAIMED = {
             'is proved to be THE source variable of the same RDM and original condition pair (NaN exactly on copy pairs), descriptors '
             'carried, returned indices = drawn groups, model resampling aligned; uniformity by counting over the complete outcome space.',
             'uniformity is relative to the stub contract (randint uniform) and is a finite count, not a solver verdict; sizes bounded'),
+    'C10': ('DESIGN.md 4/C10',
+            'Every sequence of <=2|3 structural operations (29 operation/argument variants: indexing, iteration, subset/subsample of RDMs '
+            'and conditions incl. triple copies, reorder, sort_by alpha/explicit, append, concat in 4 forms, copy, dict round trip, '
+            'from_partials, permute/inverse, to_df) is executed on small RDMs objects whose entries are symbolic; after every step the '
+            'object is compared with a reference model keyed by unique RDM/condition names: each entry must be THE source variable (for all '
+            'values, ties included), NaN exactly on copy/absent pairs, all descriptors carried; receivers of value-returning ops and all '
+            'earlier objects must be unaffected by later in-place ops; vector/square forms agree; n recovered from vector length for n<400|3000.',
+            'history depth and object sizes bounded (2-3 RDMs x 3-4 conditions); the solver only adds tie/value independence here, the weight '
+            'is in the exhaustive bounded history enumeration; slices are not supported by RDMs.__getitem__ (raises) and are excluded'),
+    'C14': ('DESIGN.md 4/C14',
+            'Real cov_from_residuals/_measurements/_unbalanced and prec_from_* executed symbolically: full and diag estimates proved equal to '
+            'the pooled residual cross-product over dof (observations minus conditions or the dof passed) for every labelling of <=4|5 '
+            'observations, balanced designs in several row orders, list inputs with per-element dof, more channels than samples; '
+            'measurement-based == unbalanced; inputs unmodified; prec@cov == I (symbolic inverse, <=2|3 channels); v\'Sv proved a sum of squares; '
+            'Ledoit-Wolf / Schaefer-Strimmer estimates proved equal to lambda*target+(1-lambda)*S with the reference lambda on every branch, '
+            'lambda in [0,1] on a solver-checked abstraction.',
+            'shrinkage estimators only for residual rank <=2 (rank 3: z3 unknown) and not through cov_from_measurements; precision of the '
+            'Ledoit-Wolf estimate outside (z3 unknown); real arithmetic; branch feasibility answered unknown is explored anyway (sound)'),
 }
 
 NA = {
